@@ -53,8 +53,13 @@ def configs(tier, seed):
         datasets=[{"label": "d1", "mc": ["m1", "m2"], "mc_scale": ["ms1", "ms2"], "maxis": A3, "gaxis": G2, "scale": "sc1"}])
     add("par-dependent", mcs={"m1": {"labels": ["s1", "s2"], "pars": ["k1", "k2"]}},
         datasets=[{"label": "d1", "mc": ["m1"], "maxis": A3, "gaxis": G2}])
+    # an expression parameter in the model: away from the generating values the fit must evaluate it on the optimiser's vector
+    add("par-dependent-expression", mcs={"m1": {"labels": ["s1", "s2"], "pars": ["e1", "k2"]}},
+        datasets=[{"label": "d1", "mc": ["m1"], "maxis": A3, "gaxis": G2, "scale": "sc1"}], expr_params={"e1": "$k1 * 2 + $k2"})
     add("full-model", mcs={"m1": {"labels": ["s1", "s2"]}}, gmcs={"g1": {"labels": ["s1", "s2"]}},
         datasets=[{"label": "d1", "mc": ["m1"], "gmc": ["g1"], "maxis": A3, "gaxis": G2}])
+    add("full-model-rectangular", mcs={"m1": {"labels": ["s1", "s2"]}}, gmcs={"g1": {"labels": ["s2", "s3", "s1"]}},
+        datasets=[{"label": "d1", "mc": ["m1"], "gmc": ["g1"], "maxis": A3, "gaxis": G3}])
     add("full-model-scales", mcs={"m1": {"labels": ["s1", "s2"], "idx": True}}, gmcs={"g1": {"labels": ["s2", "s1"]}},
         datasets=[{"label": "d1", "mc": ["m1"], "gmc": ["g1"], "gmc_scale": ["gs1"], "mc_scale": ["ms1"], "maxis": A3, "gaxis": G2}])
     add("unlinked-two", mcs={"m1": {"labels": ["s1", "s2"]}, "m2": {"labels": ["s2"]}},
@@ -148,7 +153,11 @@ def run_config(cfg, rec):
                 scheme, clps = build_simulated_scheme(cfg, src)
                 opt = Optimizer(scheme, verbose=False)
                 pen = opt.calculate_penalty()
-            return scheme, clps, pen
+                reported = {}
+                for g_ in opt._optimization_groups:
+                    reported.update(g_.create_result_data())
+                moved = c02.evaluate_moved(ctx, scheme, opt, stubs) if cfg.get("expr_params") or any(m.get("pars") for m in cfg["mcs"].values()) else None
+            return scheme, clps, pen, moved, reported
 
         for ctx, (kind, out) in core.explore(fn, rec.stats, max_paths=50):
             rec.witness_path(ctx)
@@ -156,8 +165,26 @@ def run_config(cfg, rec):
             if kind == "exc":
                 rec.unexpected(ctx, f"simulate / objective raised {type(out).__name__}: {out}", "simulation:exception", wit)
                 continue
-            scheme, clps, pen = out
+            scheme, clps, pen, moved, reported = out
             calls = c02.ordered_calls(stubs)
+            if moved is not None:
+                # started away from the generating values: the fit's model is the model of the optimiser's vector (matrices)
+                labels_m, override, pen_m = moved
+                pbs_m, _, _ = pl.spec_problems(cfg, src, override)
+                calls_m = c02.ordered_calls(stubs, phase=1)
+                okm = len(calls_m) == len(pbs_m)
+                why_m = f"{len(calls_m)} linear problems, specification {len(pbs_m)}"
+                if okm:
+                    for call, pb in zip(calls_m, pbs_m):
+                        mapping, why_m = pl.match_columns(ctx, call["matrix"], pb["cols"], pb["labels"])
+                        if mapping is None:
+                            okm = False
+                            break
+                if not okm:
+                    rec.unexpected(ctx, f"objective at a perturbed parameter vector: {why_m}", "simulation:perturbed-model", wit)
+                    continue
+                rec.proved["away from the generating parameters every fit matrix is the model matrix at the optimiser's vector"] = \
+                    rec.proved.get("away from the generating parameters every fit matrix is the model matrix at the optimiser's vector", 0) + len(calls_m)
             problems, pen_specs, pv = pl.spec_problems(cfg, src)
             items = []
             if len(calls) != len(problems):
@@ -185,6 +212,24 @@ def run_config(cfg, rec):
                             c = c / pv[ds["scale"]]
                         # shared_clp == "scaled": generating clp of dataset d is scale_d x common clp, so the common clp is recovered
                         coef.append(c)
+                # the estimate reported under a label (pair) is the solver's coefficient of the column with that label (pair)
+                for j, lab in enumerate(mapping):
+                    for dsl in pb["ds"]:
+                        rc = reported[dsl]["clp"]
+                        try:
+                            if pb["kind"] == "full":
+                                got_c = rc.sel(global_clp_label=lab[0], clp_label=lab[1]).item()
+                            else:
+                                if lab not in list(rc.coords["clp_label"].values):
+                                    continue
+                                dsd = [d for d in cfg["datasets"] if d["label"] == dsl][0]
+                                gvs = [gv_ for gv_ in dsd["gaxis"] if any(row[0] == dsl and dsd["gaxis"][row[2]] == gv_ for row in pb["rows"])]
+                                got_c = rc.sel(clp_label=lab, **{"global": gvs[0]}).item()
+                            ok_c = pl.eq_term(ctx, got_c, call["clp"][j])
+                        except Exception as ex:  # noqa: BLE001
+                            ok_c = z3.BoolVal(False)
+                        items.append(("the clp reported under a label (full model: under a (global label, label) pair) is the estimate of "
+                                      "the column carrying that label", ok_c, "simulation:reported-clp"))
                 for r in range(mat.shape[0]):
                     fit = z3.Sum([zreal(mat[r, j]) * coef[j] for j in range(mat.shape[1])]) if mat.shape[1] else z3.RealVal(0)
                     items.append(("simulated data = fit matrix x (generating clp / dataset scale): the data lie in the column space "
@@ -233,6 +278,13 @@ def replay(data):
                           f"max |penalty| = {np.max(np.abs(pen))}")
         for ds in cfg["datasets"]:
             if ds.get("gmc"):
+                got = res[ds["label"]]["clp"]
+                for gl in got.coords["global_clp_label"].values:
+                    for L in got.coords["clp_label"].values:
+                        a, b = float(got.sel(global_clp_label=gl, clp_label=L)), (1.0 if gl == L else 0.0)
+                        if not abs(a - b) <= 1e-6:
+                            return True, (f"config {cfg['name']}: full-model estimate under (global label {gl!r}, label {L!r}) is {a}, the data "
+                                          f"were generated with {b}")
                 continue
             clp, labels = clps[ds["label"]]
             got = res[ds["label"]]["clp"]
@@ -244,6 +296,10 @@ def replay(data):
                     if abs(a - b) > 1e-7 * max(1.0, abs(b)):
                         return True, (f"config {cfg['name']}: estimated clp {lab} of {ds['label']} at {gv} is {a}, generating clp / "
                                       f"dataset scale = {b}")
+    if cfg.get("expr_params") or any(m.get("pars") for m in cfg["mcs"].values()):
+        v, d = c02._replay_moved(cfg, c02.salted("r1"))
+        if v:
+            return v, "started away from the generating parameters: " + d
     # reproducibility of the noise seed (compiled RNG: sampled, not decided symbolically), including seed 0
     from harness import pipeline as pl
     from glotaran.simulation.simulation import simulate
